@@ -101,9 +101,38 @@ Proof.
   inversion Heq; subst. contradiction.
 Qed.
 
+
+(* ------------------------------------------------------------------ events of programs with peeks *)
+Lemma events_of_simpleP tid : forall cls rs,
+  Forall (fun cl => simple_callP cl = true) cls -> Forall2 res_ok cls rs ->
+  events_of tid cls rs = (apps_of tid cls rs, dels_of tid cls rs, false).
+Proof.
+  induction cls as [|cl cls IH]; intros rs Hs Hr.
+  - inversion Hr. reflexivity.
+  - destruct rs as [|r rs]; [inversion Hr|].
+    assert (Hr1 : res_ok cl r) by (inversion Hr; assumption).
+    assert (Hr2 : Forall2 res_ok cls rs) by (inversion Hr; assumption).
+    assert (Hs1 : simple_callP cl = true) by (inversion Hs; assumption).
+    assert (Hs2 : Forall (fun cl => simple_callP cl = true) cls) by (inversion Hs; assumption).
+    cbn [events_of apps_of dels_of]. rewrite (IH _ Hs2 Hr2).
+    destruct cl as [t e|t es|t ck|t mb ck]; cbn in Hs1; try discriminate.
+    + destruct r; cbn in Hr1; try contradiction; reflexivity.
+    + destruct ck; destruct r; cbn in Hr1; try contradiction; reflexivity.
+Qed.
+
+Definition thread_okP (p : list call) (rs : list result) : Prop :=
+  Forall (fun cl => simple_callP cl = true) p /\ Forall2 res_ok p rs.
+
+Lemma events_all_simpleP : forall progs res n, Forall2 thread_okP progs res ->
+  events_all n progs res = (all_apps n progs res, all_dels n progs res, false).
+Proof.
+  induction progs as [|p ps IH]; intros res n H; inversion H; subst; [reflexivity|].
+  cbn [events_all all_apps all_dels]. destruct H2 as (A & B). rewrite (events_of_simpleP n p y A B), (IH _ (S n) H4). reflexivity.
+Qed.
+
 (* ------------------------------------------------------------------ the verdict *)
 Theorem invF_accepts c progs cs L :
-  Forall (Forall (fun cl => simple_call cl = true)) progs -> NoDup (offered_pids progs) ->
+  Forall (Forall (fun cl => simple_callP cl = true)) progs -> NoDup (offered_pids progs) ->
   INVF c progs cs L -> threads_done cs = true ->
   c05_run_ok progs (cresults cs) false = true.
 Proof.
@@ -121,12 +150,12 @@ Proof.
         rewrite (map_nth (fun th => rev (th_done th)) (cs_threads cs) th i). f_equal. f_equal. now apply nth_error_nth.
       + destruct (Ith i th E) as (_ & _ & (d & H1 & H2)). rewrite Htd, app_nil_r in H1. now subst d.
     - apply nth_error_None in E. unfold n in Hi. lia. }
-  assert (Hthok : Forall2 thread_ok progs res).
-  { apply (Forall2_nth thread_ok [] []); [now rewrite Hlen|]. intros i Hi. fold n in Hi.
+  assert (Hthok : Forall2 thread_okP progs res).
+  { apply (Forall2_nth thread_okP [] []); [now rewrite Hlen|]. intros i Hi. fold n in Hi.
     destruct (Hfin i Hi) as (th & _ & _ & Hr & Hf). split.
     - eapply Forall_forall in Hsp; [exact Hsp|]. apply nth_In. exact Hi.
     - now rewrite Hr. }
-  unfold c05_run_ok. fold res. rewrite (events_all_simple progs res 0 Hthok). cbn [negb andb].
+  unfold c05_run_ok. fold res. rewrite (events_all_simpleP progs res 0 Hthok). cbn [negb andb].
   unfold c05_ok. apply forallb_forall. intros t _.
   set (S := stream (eff cs t)). set (U := unread c (eff cs t)). set (Lt := L t).
   set (W := fun i => wr_hist t (nth i progs []) (nth i res [])).
